@@ -14,6 +14,7 @@ import Gsp.Model.Verify
 import Gsp.Model.Resolve
 import Gsp.Model.Hex
 import Gsp.Model.PathObj
+import Gsp.Model.DidDoc
 import Gsp.Model.Loader
 import Gsp.Model.Json
 import Gsp.Model.Schema
@@ -614,6 +615,20 @@ def optJEq : Option Json.J → Option Json.J → Bool
   | some a, some b => jEq a b
   | _, _ => false
 
+/-- an authentication entry as it is decoded: a reference (with its text), an embedded method, or an error; and what kind it is
+    after being encoded and decoded again -/
+def opDidAuth (inp : Json) : Except String Json := do
+  let j := toJ (← inp.getObjVal? "j")
+  let show_ : DidDoc.Auth → Json := fun
+    | .ref did => Json.mkObj [("ref", Json.str did)]
+    | .method _ => Json.str "method"
+  match DidDoc.authDecode id j with
+  | .error _ => pure (errJ "err")
+  | .ok a =>
+    match DidDoc.authDecode id (DidDoc.authEncode a) with
+    | .error _ => pure (errJ "unstable")
+    | .ok a' => pure (okJ (Json.mkObj [("first", show_ a), ("again", show_ a')]))
+
 def opCredView (inp : Json) : Except String Json := do
   let j := toJ (← inp.getObjVal? "doc")
   match Json.view Xsd.parseTime j with
@@ -710,6 +725,7 @@ def handle (k : Pos.Consts) (op : String) (inp : Json) : Except String Json :=
   | "hex.claim" => opHexClaim inp
   | "hex.bytes" => opHexBytes inp
   | "cred.view" => opCredView inp
+  | "did.auth" => opDidAuth inp
   | "ctx.paths" => opCtxPaths inp
   | "ctx.typeid" => opCtxTypeId inp
   | "schema.validate" => opSchemaValidate inp
